@@ -1196,6 +1196,25 @@ func (c *ExecCtx) applyContract(st *State, fs *FuncSpec, fn *types.Func, recv *V
 		t := env.evalBool(st, pre, cl.Expr, cl.Where)
 		u.oblige(st, "pre", Not(t), pos, fmt.Sprintf("%s panics if: %s", shortKey(fs.Key), cl.Src))
 	}
+	for _, raw := range fs.Extra["holds"] {
+		if ex, err := parseSpecExpr(raw); err == nil {
+			k, idx := env.specLockKey(st, pre, ex)
+			held, cond, mode := c.lockHeldFor(st, k)
+			ok := held && mode == 1
+			if ok && idx != nil {
+				if hi, has := st.lockIdx[k]; has {
+					u.oblige(st, "lock", Eq(hi, idx), pos, "caller holds "+raw+" (index) when calling "+shortKey(fs.Key))
+				} else {
+					ok = false
+				}
+			}
+			if ok && cond != nil {
+				u.oblige(st, "lock", cond, pos, "caller holds "+raw+" when calling "+shortKey(fs.Key))
+			} else {
+				u.obligeStatic(st, "lock", ok, pos, "caller holds "+raw+" when calling "+shortKey(fs.Key))
+			}
+		}
+	}
 	// lets (evaluated in pre-state)
 	for _, cl := range fs.Lets {
 		v := env.eval(st, pre, cl.Expr)
